@@ -510,6 +510,55 @@ def execute(prop, cfg, steps_iter, seed, tier, faulty, keep_trace=False):
     return res
 
 
+def isolated(fn, *args, **kw):
+    """Run fn(*args) in a forked child and return its (pickled) result.
+
+    One run = one process image: whatever process-global state the code under test keeps (module-level
+    caches, class attributes, numba/numpy globals) starts from the pristine post-import state in every
+    run and every replay, so a run is a pure function of its seed and the code - also when the code
+    under test grows a cache.  The parent never executes cryoCAT code itself.
+    """
+    import pickle
+    if os.environ.get("CRYOSIM_NO_ISOLATION"):
+        return fn(*args, **kw)
+    r, w = os.pipe()
+    pid = os.fork()
+    if pid == 0:
+        code = 0
+        try:
+            os.close(r)
+            try:
+                payload = pickle.dumps(("ok", fn(*args, **kw)))
+            except BaseException:  # noqa: BLE001 - shipped to the parent as a harness error
+                payload = pickle.dumps(("err", traceback.format_exc()))
+            with os.fdopen(w, "wb") as f:
+                f.write(payload)
+        except BaseException:  # noqa: BLE001
+            code = 3
+        finally:
+            os._exit(code)
+    os.close(w)
+    with os.fdopen(r, "rb") as f:
+        data = f.read()
+    _, status = os.waitpid(pid, 0)
+    if not data:
+        raise HarnessError("isolated run died without a result (wait status %r)" % status)
+    kind, val = pickle.loads(data)
+    if kind == "err":
+        raise HarnessError("exception inside an isolated run:\n" + val)
+    return val
+
+
+def run_history(prop, jobs, tier):
+    """Execute several seeded runs one after the other in *this* process image and return the result of
+    the last one: used to reproduce violations that depend on process-global state left behind by
+    earlier runs (module-level caches in the code under test)."""
+    res = None
+    for seed, faulty in jobs:
+        res = run_seed(prop, seed, tier, bool(faulty), keep_trace=True)
+    return res
+
+
 def run_seed(prop, seed, tier, faulty, keep_trace=False):
     rng = Rng(seed)
     cfg = prop.config(rng.fork("cfg"), tier, faulty)
@@ -546,6 +595,10 @@ def run_seed(prop, seed, tier, faulty, keep_trace=False):
 
 
 def replay(prop, trace):
+    return isolated(_replay, prop, trace)
+
+
+def _replay(prop, trace):
     steps = trace["steps"]
 
     def steps_iter(world):
